@@ -37,7 +37,7 @@ static struct vr V;
 static qb_ipcs_service_t *S;
 static size_t MAXMSG;
 static bool nt_retry, nt_inflight;
-static uint8_t *sbuf, *rbuf;
+static uint8_t *sbuf, *rbuf, *srvbuf;	/* srvbuf: what the server sends (the server may run in the helper thread while the client is inside a send from sbuf) */
 
 /* message body: [hdr][conn idx u32][seq u32][kind u32][keyed bytes...] */
 static void fill_msg(uint8_t *b, size_t len, int ci, uint32_t seq, uint32_t kind, size_t hdrsz)
@@ -76,10 +76,10 @@ static void server_send(conn &c, bool event, const char *where)
 	size_t hs = sizeof(struct qb_ipc_response_header);
 	size_t len = pick_len(hs);
 	uint32_t seq = event ? c.nevt : c.nresp;
-	struct qb_ipc_response_header *h = (struct qb_ipc_response_header *)sbuf;
-	fill_msg(sbuf, len, c.idx, seq, event ? 2 : 1, hs);
+	struct qb_ipc_response_header *h = (struct qb_ipc_response_header *)srvbuf;
+	fill_msg(srvbuf, len, c.idx, seq, event ? 2 : 1, hs);
 	h->id = event ? 77 : 66; h->size = (int32_t)len; h->error = 0;
-	ssize_t rc = event ? qb_ipcs_event_send(c.sv, sbuf, len) : qb_ipcs_response_send(c.sv, sbuf, len);
+	ssize_t rc = event ? qb_ipcs_event_send(c.sv, srvbuf, len) : qb_ipcs_response_send(c.sv, srvbuf, len);
 	vop(R, event ? 11 : 10, c.idx, len);
 	VLOG(R, "  server %s to client %d len %zu seq %u (%s) -> %zd\n", event ? "event" : "response", c.idx, len, seq, where, rc);
 	if (rc == (ssize_t)len) {
@@ -171,7 +171,7 @@ static void check_readable(void)
 	}
 }
 
-extern "C" void verif_init(void) { sbuf = (uint8_t *)malloc(1 << 20); rbuf = (uint8_t *)malloc(1 << 20); }
+extern "C" void verif_init(void) { sbuf = (uint8_t *)malloc(1 << 20); rbuf = (uint8_t *)malloc(1 << 20); srvbuf = (uint8_t *)malloc(1 << 20); }
 
 extern "C" int verif_case(const uint8_t *data, size_t size, struct verif_report *r)
 {
